@@ -205,6 +205,11 @@ def check_invocations(prop, req, mres, data, who="async", exact_present=True):
             out.append(Violation(prop, "double_invocation", {"who": who},
                                  {"path": list(path), "count": n}))
             break
+    for path in getattr(mres, "no_invoke", ()):
+        if req.invocations.get(path):
+            out.append(Violation(prop, "invoked_despite_argument_error", {"who": who},
+                                 {"path": list(path), "args": repr(req.args_seen.get(path))}))
+            break
     if req.unplanned:
         out.append(Violation(prop, "unplanned_position", {"who": who, "what": req.unplanned[0][0]},
                              {"positions": [list(map(str, u)) for u in req.unplanned[:5]]}))
